@@ -5,7 +5,7 @@ TF = ("textfilter",)
 UNITS = {
     "state": [()],
     "spec": [TF],
-    "handle_a": [TF], "handle_b": [TF], "handle_b2": [TF], "handle_c": [TF],
+    "handle_a": [TF], "handle_b": [TF], "handle_b2": [TF], "handle_c": [TF], "handle_d": [TF],
     "logger": [TF],
     "flw": [()],
     "multi": [()],
@@ -21,7 +21,7 @@ UNITS = {
 # property -> list of (unit, features)
 PROP_UNITS = {
     "C01": [("state", ()), ("handle", ())],
-    "C02": [("spec", TF), ("logger", TF), ("handle_c", TF)],
+    "C02": [("spec", TF), ("logger", TF), ("handle_c", TF), ("handle_d", TF)],
     "C04": [("state", ()), ("handle", ()), ("flw", ())],
     "C05": [("handle_a", TF), ("handle_b", TF), ("handle_b2", TF), ("handle_c", TF), ("spec", TF)],
     "C06": [("state", ()), ("timestamps", ())],
@@ -44,6 +44,7 @@ ALL_KANI = ["size_rotation_necessary_contract", "increase_size_contract", "rotat
             "highest_index_empty", "highest_index_single", "highest_index_three", "highest_index_name_with_r", "highest_index_two_digit",
             "highest_index_gz_only", "filter_member", "filter_longer_basename", "filter_other_suffix", "filter_current_is_not_numbered",
             "filter_no_infix", "filter_multibyte_neighbour", "filter_equals_current", "filter_compressed",
+            "filter_suffix_tail_catalog", "filter_suffix_tail_tgz", "filter_suffix_no_dot",
             "ts_infix_member", "ts_infix_short_name", "ts_infix_restart_sibling"]
 # the harnesses are selected per property by their own property tags (lib/kani_unit.py HARNESSES)
 PROP_KANI = {p: ALL_KANI for p in ("C01", "C02", "C05", "C06", "C07", "C08", "C10", "C13", "C14", "C16")}
